@@ -295,6 +295,8 @@ func c10SameFiles(a, b map[string][]byte) bool {
 	return true
 }
 
+var c10Page int
+
 type c10Opts struct {
 	n      int
 	tags   bool
@@ -348,7 +350,10 @@ func c10Squash(c *ctx, h *c10Hist, o c10Opts, danglingIDs []string) error {
 	done := make(chan error, 1)
 	go func() {
 		done <- corekit.Recover(func() error {
-			return core.RepoSquash(stores, repo, core.WithRetainNLatest(o.n), core.WithRetainTags(o.tags), core.WithRetainSemverTags(o.semver))
+			// the listing page size is not part of the contract: 1, 2, 3 or the default give the same squash
+			c10Page++
+			return core.RepoSquash(stores, repo, core.WithRetainNLatest(o.n), core.WithRetainTags(o.tags), core.WithRetainSemverTags(o.semver),
+				core.BatchSize([]int{1024, 1, 2, 3}[c10Page%4]))
 		})
 	}()
 	var res string
